@@ -209,6 +209,16 @@ def main():
         selftest = ST.run(a.repo, units=set(units))
         bad = [m for m in selftest if m.get('as_expected') is False]
         if bad: undecided.append(('selftest', 'mutation self-test: %s not as expected' % [m['mutant'] for m in bad]))
+    bounded_res = None
+    if a.tier == 'thorough' and not violations and prop in ('C05', 'C13', 'C16'):
+        from vx import bounded
+        bounded_res = bounded.run(a.repo, os.path.join(ROOT, 'build'))
+        if bounded_res['status'] == 'violation':
+            violations.append(('bounded', 'detection-contract.symbols_kept', {'msg': 'bounded check on the real code: ' + bounded_res['detail'], 'spans': [], 'kani': {'log': bounded_res.get('log', '')}}))
+        elif bounded_res['status'] == 'assumption_broken':
+            undecided.append(('bounded', 'the contract that unit repeats assumes of the detection stage (detection_ok) fails on the real code: %s -- the proofs of unit repeats no longer apply' % bounded_res['detail']))
+        elif bounded_res['status'] != 'ok':
+            assumptions.append('NOT EXPLORED (resource limit / tool): bounded check of the detection contract: ' + bounded_res['detail'])
     ev = {'property_id': prop, 'tier': a.tier, 'seed': int(os.environ.get('VERIF_SEED') or 0), 'level': 'proof', 'wall_s': round(time.time() - t0, 2),
           'violations': len(violations),
           'coverage': {'obligations': len(counted), 'discharged': len(counted - set(failed)),
@@ -228,6 +238,7 @@ def main():
           'assumptions': sorted(set(trusted)) + assumptions}
     if kani_res: ev['coverage']['kani'] = [{k: v for k, v in h.items() if k != 'log'} for h in kani_res['harnesses']]
     if selftest is not None: ev['coverage']['mutation_selftest'] = selftest
+    if bounded_res is not None: ev['coverage']['bounded_checks'] = [{k: v for k, v in bounded_res.items() if k != 'log'}]
     with open(os.path.join(a.out, prop + '.json'), 'w') as f: json.dump(ev, f, indent=1)
     for ln in sorted(set(known_lines)): print(ln)
     if violations:
@@ -236,7 +247,7 @@ def main():
             w = witness.hunt(prop, u, lab, f, a.repo)
             with open(rp, 'w') as fh:
                 fh.write('failed obligation: %s:%s\nproperty: %s\nverifier diagnostic: %s\n' % (u, lab, prop, f['msg']))
-                if u != 'kani':
+                if u not in ('kani', 'bounded'):
                     fh.write('assembled file: %s\nspans: %s\nsite: %s\n' % (main_res[u]['path'], f['spans'], f.get('site')))
                 if w and w.get('args'):
                     fh.write('concrete input (vx-replay arguments): %s\n--- the real library on that input ---\n%s\n' % (' '.join(shlex.quote(x) for x in w['args']), w['output']))
